@@ -1107,9 +1107,9 @@ class Agent(dbus.service.Object):
             return
 
         if ExtensionKey.SENDER_LISTEN in extmap:
-            interval_ms = int(extmap[ExtensionKey.SENDER_LISTEN])
+            interval_ms = extmap[ExtensionKey.SENDER_LISTEN]
             node_id = extmap.get(ExtensionKey.SENDER_NODEID, '')
-            if not isinstance(node_id, str) or not 0 <= interval_ms < 2 ** 31:
+            if not isinstance(node_id, str) or not isinstance(interval_ms, int) or not 0 <= interval_ms < 2 ** 31:
                 # values come from the peer and must fit the signal signature
                 self.__logger.error('Ignoring invalid Sender Listen of %s ms from %s', interval_ms, repr(node_id))
                 return
